@@ -64,6 +64,19 @@ def step (line : String) : String :=
             ";".intercalate (rows.map fun r => ",".intercalate (r.map showCell))
       | r => r.tag
     | _, _ => "bad-op"
+  | ["planflags", fields] =>
+    let fs := if fields == "-" then [] else fields.splitOn ","
+    let flags := Plan.plan fs
+    let shown := ["UseHeaders", "UseBlocks", "UseReceipts", "UseLogs", "UseTraces"].filter flags.contains
+    if shown.isEmpty then "-" else ",".intercalate shown
+  | ["plan", fields] =>
+    let fs := if fields == "-" then [] else fields.splitOn ","
+    let flags := Plan.plan fs
+    let order := ["UseHeaders", "UseBlocks", "UseReceipts", "UseLogs", "UseTraces"]
+    let shown := order.filter flags.contains
+    let unsupplied := (fs.filter fun f => Plan.knownFields.contains f && !Plan.suppliedBy flags f)
+    (if shown.isEmpty then "-" else ",".intercalate shown) ++ " unsupplied=" ++
+      (if unsupplied.isEmpty then "-" else ",".intercalate unsupplied)
   | ["sig", name, desc] =>
     match Abi.parseDesc desc with
     | none => "bad-op"
